@@ -197,6 +197,31 @@ let run_case (line : string) : string =
            let env = { M.e_bound = true; e_params = binds; e_progs = progs; e_ufuncs = ufs;
                        e_runtime = true; e_now = Some M.Z0 } in
            print_res (M.exec (Lazy.force big_fuel) env entry) print_log)
+  | "serform" ->
+      (* the serde data-model tree of the compiled program, canonical text *)
+      let _fmt = next t in
+      let src = decode_src (next t) in
+      let rec sd (x : M.sd) : string = match x with
+        | M.SDI z -> "i" ^ dec_of_cz z
+        | M.SDU z -> "u" ^ dec_of_cz z
+        | M.SDF f -> "f" ^ Printf.sprintf "%s" (string_of_value (M.VFloat f))
+        | M.SDB b -> if b then "b1" else "b0"
+        | M.SDS s -> "s" ^ hex_of_bytes s
+        | M.SDSeq l -> "[ " ^ String.concat " " (List.map sd l) ^ " ]"
+        | M.SDMap m -> "{ " ^ String.concat " " (List.map (fun (k, v) -> hex_of_bytes k ^ ": " ^ sd v) m) ^ " }"
+        | M.SDNone -> "none"
+        | M.SDSome y -> "some " ^ sd y
+        | M.SDStruct fs -> "S( " ^ String.concat " " (List.map (fun (k, v) -> hex_of_bytes k ^ "= " ^ sd v) fs) ^ " )"
+        | M.SDVar (i, n, p) ->
+            "V" ^ dec_of_cz i ^ ":" ^ hex_of_bytes n ^
+            (match p with
+             | M.PUnit -> ""
+             | M.PNew y -> " N( " ^ sd y ^ " )"
+             | M.PStruct fs -> " P( " ^ String.concat " " (List.map (fun (k, v) -> hex_of_bytes k ^ "= " ^ sd v) fs) ^ " )") in
+      (match M.compile_source (nat_of_int (List.length src + 20000)) src with
+       | M.COk (p, _) -> "OK " ^ sd (M.ser_program (M.utf8_encode src) p.M.pr_params p.M.pr_code)
+       | M.CSyntax l -> "CERR Esyn:" ^ loc_str l
+       | M.CPanic -> "PANIC" | M.CFuel -> "MODEL_FUEL" | M.CUnmod -> "UNMOD")
   | "tosql" ->
       let src = decode_src (next t) in
       (match M.parse_program (nat_of_int (List.length src + 20000)) src with
